@@ -50,7 +50,10 @@ where
     let mut accumulated_slack = Probability::zero();
 
     Ok(probabilities.iter().map(move |probability_float| {
-        let left_cumulative = (cumulative_float * scale).as_() + accumulated_slack;
+        // Clamping to `free_weight` is a no-op unless `F` has too few mantissa bits to
+        // resolve `free_weight` or `scale` overflowed to infinity.
+        let left_cumulative =
+            core::cmp::min((cumulative_float * scale).as_(), free_weight) + accumulated_slack;
         cumulative_float = cumulative_float + *probability_float;
         accumulated_slack = accumulated_slack.wrapping_add(&Probability::one());
         left_cumulative
@@ -94,7 +97,8 @@ where
                 return Err(());
             }
             let prob: f64 = prob.into();
-            let current_free_weight = (prob * scale).as_();
+            // Clamping is a no-op unless `scale` overflowed to infinity.
+            let current_free_weight = core::cmp::min((prob * scale).as_(), remaining_free_weight);
             remaining_free_weight = remaining_free_weight - current_free_weight;
             let weight = current_free_weight + Probability::one();
 
